@@ -1,9 +1,12 @@
 (* C01 - Serialized arrays decode to exactly the input records. *)
-From Verif Require Import Builder Builder_proofs Bits_proofs.
+From Verif Require Import Builder Builder_proofs Bits_proofs Refine_proofs.
 
 (* Full-strength statement (kept visible). It is evaluated on every case of the check as the
    specification oracle RunC01.oracle (decode of the implementation's arrays = interp of the rows,
-   all data types); the parts below are proved about the builder model. *)
+   all data types). It is proved below about the builder model (C01_core_proved: every schema of
+   the modelled core - Boolean, the eight integer types, Utf8 / LargeUtf8, List / LargeList, Struct,
+   nullable or not, any nesting - whose structs have unique field names, every record sequence in
+   every presentation); the other data types are covered by the per-case oracle only. *)
 Definition C01_full : Prop :=
   forall fields recs arrs lrows,
     to_marrow fields recs = Some (Ok arrs) ->
@@ -13,6 +16,47 @@ Definition C01_full : Prop :=
                                               | LStruct fs => match nth_error fs i with Some (_, v) => v | None => LNull end
                                               | _ => LNull end) lrows))
             (seq 0 (length arrs)) arrs.
+
+(* one push: if the builder accepts the value, the value is in the documented mapping, and the
+   logical content of the arrays grows by exactly the denoted value; no earlier row changes *)
+Theorem C01_push_refines : forall v f b b' lvs,
+  shape f b -> WfB b -> content b = Some lvs -> push v b = Ok b' ->
+  exists lv, interp f v = IOk lv /\ content b' = Some (lvs ++ [lv]) /\ shape f b'.
+Proof. exact push_sound. Qed.
+
+(* whole conversions: every accepted record is in the documented mapping and column j decodes to
+   exactly the j-th components of the denoted rows *)
+Theorem C01_to_marrow_sound : forall fields recs arrs,
+  names_ok (mkField [] (DStruct fields) false) -> to_marrow fields recs = Some (Ok arrs) ->
+  exists rows, Forall2 (fun r lv => interp (mkField [] (DStruct fields) false) r = IOk lv) recs (map LStruct rows) /\
+               forall j a, nth_error arrs j = Some a -> decode a = Some (column_of j rows).
+Proof. exact to_marrow_sound. Qed.
+
+Lemma iall_of_forall2 (f : Value -> IRes) : forall recs lvs, Forall2 (fun r lv => f r = IOk lv) recs lvs -> iall (map f recs) = Some (Some lvs).
+Proof. intros recs lvs H. induction H as [|r lv recs' lvs' Hr _ IH]; [reflexivity|]. cbn [map iall]. rewrite Hr, IH. reflexivity. Qed.
+
+Lemma forall2_seq {A} (P : nat -> A -> Prop) : forall (l : list A) s, (forall j a, nth_error l j = Some a -> P (s + j) a) -> Forall2 P (seq s (length l)) l.
+Proof.
+  induction l as [|a r IH]; intros s H; [constructor|]. cbn [length seq]. constructor.
+  - rewrite <- (Nat.add_0_r s). apply (H 0 a). reflexivity.
+  - apply IH. intros j a' Hj. replace (S s + j) with (s + S j) by lia. apply (H (S j) a'). exact Hj.
+Qed.
+
+(* C01_full for the modelled core *)
+Theorem C01_core_proved : forall fields recs arrs lrows,
+  names_ok (mkField [] (DStruct fields) false) ->
+  to_marrow fields recs = Some (Ok arrs) ->
+  iall (map (interp (mkField [] (DStruct fields) false)) recs) = Some (Some lrows) ->
+  Forall2 (fun (i : nat) (a : Arr) =>
+             decode a = Some (map (fun r => match r with
+                                            | LStruct fs => match nth_error fs i with Some (_, v) => v | None => LNull end
+                                            | _ => LNull end) lrows))
+          (seq 0 (length arrs)) arrs.
+Proof.
+  intros fields recs arrs lrows Hn Hm Hi. destruct (to_marrow_sound fields recs arrs Hn Hm) as (rows & HF & Hcols).
+  rewrite (iall_of_forall2 _ _ _ HF) in Hi. injection Hi as <-.
+  apply forall2_seq. intros j a Hj. cbn [plus]. rewrite (Hcols j a Hj). unfold column_of. rewrite map_map. reflexivity.
+Qed.
 
 (* the same row count in every column, for every schema of the modelled core and every record
    sequence in any presentation *)
@@ -58,5 +102,20 @@ Example C01_example :
   end.
 Proof. vm_compute. reflexivity. Qed.
 
+(* non-vacuity of C01_core_proved: the schema of the example has unique names and its conversion succeeds *)
+Example C01_core_example :
+  let fields := [mkField (b "a") (DPrim (PInt I32)) false;
+                 mkField (b "s") (DStruct [mkField (b "x") (DBytes BUtf8) false;
+                                           mkField (b "l") (DList KList (mkField (b "element") (DPrim (PInt U8)) true)) true]) true] in
+  names_ok (mkField [] (DStruct fields) false) /\
+  exists arrs, to_marrow fields [VTuple [VInt U8 8; VNone]; VMap [(VSome (VStr (b "a")), VBool true)]] = Some (Ok arrs).
+Proof.
+  split.
+  - cbn [names_ok map fname']. repeat split; repeat constructor; cbn; intuition discriminate.
+  - eexists. vm_compute. reflexivity.
+Qed.
+
+Print Assumptions C01_push_refines.
+Print Assumptions C01_core_proved.
 Print Assumptions C01_row_count.
 Print Assumptions C01_int_column_exact.
